@@ -17,11 +17,11 @@ inductive AJson where
 
 /-- one level of abstraction below an object: enough for the two JSON manifests, whose walks are two levels deep -/
 def absLeaf (content : Text) (n : Node) : AJson :=
-  if n.kind == "string" then .str (unquoteDq (nodeText content n)) (closedString (nodeText content n)) else .other n.kind
+  if n.kind == "string" then .str (jsonStr (nodeText content n)) (closedString (nodeText content n)) else .other n.kind
 
 def absMembers (content : Text) (leaf : Node → AJson) (obj : Node) : List (Option Text × Option AJson) :=
   (obj.children.filter (·.kind == "pair")).map fun p =>
-    ((p.childByField "key").map fun k => unquoteDq (nodeText content k), (p.childByField "value").map leaf)
+    ((p.childByField "key").map fun k => jsonStr (nodeText content k), (p.childByField "value").map leaf)
 
 /-- a dependency object: members with leaf values -/
 def absDepObject (content : Text) (obj : Node) : AJson :=
@@ -54,7 +54,7 @@ def triple (p : PkgInfo) : Text × Text := (p.name, p.version)
 
 theorem npmEntry_abs (content : Text) (child : Node) (hk : child.kind = "pair") :
     (npmEntry content child).map triple =
-      entryTriple ((child.childByField "key").map fun k => unquoteDq (nodeText content k),
+      entryTriple ((child.childByField "key").map fun k => jsonStr (nodeText content k),
                    (child.childByField "value").map (absLeaf content)) := by
   unfold npmEntry
   have hk' : (child.kind != "pair") = false := by simp [hk]
@@ -104,7 +104,7 @@ theorem npmSection_abs (content : Text) (c : Node) (hk : c.kind = "pair") :
     (match npmSectionOf content c with
       | some sec => (npmPackagesOfObject content sec).map triple
       | none => []) =
-    sectionTriples ((c.childByField "key").map fun k => unquoteDq (nodeText content k),
+    sectionTriples ((c.childByField "key").map fun k => jsonStr (nodeText content k),
                     (c.childByField "value").map (absDepObject content)) := by
   unfold npmSectionOf
   have hk' : (c.kind != "pair") = false := by simp [hk]
@@ -113,7 +113,7 @@ theorem npmSection_abs (content : Text) (c : Node) (hk : c.kind = "pair") :
   | none => cases c.childByField "value" <;> rfl
   | some k =>
     simp only [Option.map_some]
-    cases hin : strIn Generated.dependencyFields (unquoteDq (nodeText content k)) with
+    cases hin : strIn Generated.dependencyFields (jsonStr (nodeText content k)) with
     | false =>
       simp only [Bool.not_false, if_true, sectionTriples]
       cases (c.childByField "value").map (absDepObject content) with
@@ -201,7 +201,7 @@ def declaredJsr : Option AJson → List (Text × Text)
 
 theorem denoEntry_abs (content : Text) (child : Node) (hk : child.kind = "pair") :
     (denoEntry content child).map triple =
-      jsrTriple ((child.childByField "key").map fun k => unquoteDq (nodeText content k),
+      jsrTriple ((child.childByField "key").map fun k => jsonStr (nodeText content k),
                  (child.childByField "value").map (absLeaf content)) := by
   unfold denoEntry
   have hk' : (child.kind != "pair") = false := by simp [hk]
@@ -218,7 +218,7 @@ theorem denoEntry_abs (content : Text) (child : Node) (hk : child.kind = "pair")
       | false => simp [jsrTriple]
       | true =>
         simp only [Bool.not_true, Bool.false_eq_true, if_false, jsrTriple]
-        cases Sites.jsrSpecifier (unquoteDq (nodeText content v)) with
+        cases Sites.jsrSpecifier (jsonStr (nodeText content v)) with
         | none => rfl
         | some r => cases r with
           | none => rfl
@@ -252,7 +252,7 @@ theorem denoSection_abs (content : Text) (c : Node) (hk : c.kind = "pair") :
     (match denoSectionOf content c with
       | some sec => (denoPackagesOfImports content sec).map triple
       | none => []) =
-    importsTriples ((c.childByField "key").map fun k => unquoteDq (nodeText content k),
+    importsTriples ((c.childByField "key").map fun k => jsonStr (nodeText content k),
                     (c.childByField "value").map (absDepObject content)) := by
   unfold denoSectionOf
   have hk' : (c.kind != "pair") = false := by simp [hk]
@@ -261,15 +261,15 @@ theorem denoSection_abs (content : Text) (c : Node) (hk : c.kind = "pair") :
   | none => cases c.childByField "value" <;> rfl
   | some k =>
     simp only [Option.map_some]
-    cases hin : (unquoteDq (nodeText content k) == importsKey) with
+    cases hin : (jsonStr (nodeText content k) == importsKey) with
     | false =>
-      have hne : (unquoteDq (nodeText content k) != importsKey) = true := by unfold bne; rw [hin]; rfl
+      have hne : (jsonStr (nodeText content k) != importsKey) = true := by unfold bne; rw [hin]; rfl
       simp only [hne, if_true, importsTriples]
       cases (c.childByField "value").map (absDepObject content) with
       | none => rfl
       | some a => cases a <;> simp only [hin, Bool.false_eq_true, if_false]
     | true =>
-      have hne : (unquoteDq (nodeText content k) != importsKey) = false := by unfold bne; rw [hin]; rfl
+      have hne : (jsonStr (nodeText content k) != importsKey) = false := by unfold bne; rw [hin]; rfl
       simp only [hne, Bool.false_eq_true, if_false]
       cases c.childByField "value" with
       | none => rfl
